@@ -6,6 +6,8 @@
       rtt <ns> <now> <inflight>                  SmoothedRTT() returns ns from now on
       mds <size> <now> <inflight>                SetMaxDatagramSize(size)
       send <t> <size> <now> <inflight>           OnPacketSent(t, _, _, size, true)
+      usend <t> <size> <now> <inflight>          the same call, for a packet the pacer did not release
+      gsend <t> <size> <now> <inflight>          OnPacketSent only if HasPacingBudget(t) and size ≤ datagram size
       ack <t> <nAck> <nLoss> <now> <inflight>    OnCongestionEventEx(_, t, nAck packets, nLoss packets)
       q <now> <inflight>                         nothing
   result: the pacer's fields, getBandwidth(), maxBurstSize(), Budget(now), HasPacingBudget(now),
@@ -114,6 +116,13 @@ def step (d : DS) (line : String) : DS × String :=
       | "mds", [sz, now, infl] => fin { d with s := setMaxDatagramSize d.s sz } now infl
       | "send", [t, sz, now, infl] =>
         fin { d with s := onPacketSent d.s (bandwidthF d.s) t sz } now infl
+      | "usend", [t, sz, now, infl] =>
+        fin { d with s := onPacketSent d.s (bandwidthF d.s) t sz } now infl
+      | "gsend", [t, sz, now, infl] =>
+        let bw := bandwidthF d.s
+        if hasPacingBudget d.s bw t && decide (0 ≤ sz ∧ sz ≤ d.s.maxDatagramSize) then
+          fin { d with s := onPacketSent d.s bw t sz } now infl
+        else fin d now infl
       | "ack", [t, a, l, now, infl] =>
         if t < 0 ∨ a < 0 ∨ l < 0 then (d, "bad-op")
         else fin { d with s := tabulate (onCongestionEventEx d.s t.toNat a.toNat l.toNat) } now infl
